@@ -39,11 +39,14 @@ var xaConnTimeout time.Duration
 type XAConn struct {
 	*Conn
 
-	tx                 driver.Tx
-	xaResource         xa.XAResource
-	xaBranchXid        *XABranchXid
-	xaActive           bool
-	rollBacked         bool
+	tx          driver.Tx
+	xaResource  xa.XAResource
+	xaBranchXid *XABranchXid
+	xaActive    bool
+	rollBacked  bool
+	// txAborted: a statement of the explicit transaction failed and its branch has been rolled back; what the
+	// caller still sends on this transaction is refused until it ends it
+	txAborted          bool
 	branchRegisterTime time.Time
 	prepareTime        time.Time
 	isConnKept         bool
@@ -116,6 +119,7 @@ func (c *XAConn) ExecContext(ctx context.Context, query string, args []driver.Na
 
 // BeginTx like common transaction. but it just exec XA START
 func (c *XAConn) BeginTx(ctx context.Context, opts driver.TxOptions) (driver.Tx, error) {
+	c.txAborted = false
 	if !tm.IsGlobalTx(ctx) {
 		// a plain local transaction: whatever global transaction this connection served before is over
 		// (a pinned connection is not reset by database/sql between statements)
@@ -204,6 +208,10 @@ func (c *XAConn) createNewTxOnExecIfNeed(ctx context.Context, f func() (types.Ex
 		}
 	}()
 
+	if c.txAborted {
+		return nil, fmt.Errorf("the xa branch of this transaction was rolled back after a failed statement: roll the transaction back")
+	}
+
 	currentAutoCommit := c.autoCommit
 	if c.txCtx.TransactionMode != types.Local && tm.IsGlobalTx(ctx) && c.autoCommit {
 		tx, err = c.BeginTx(ctx, driver.TxOptions{Isolation: driver.IsolationLevel(gosql.LevelDefault)})
@@ -216,9 +224,13 @@ func (c *XAConn) createNewTxOnExecIfNeed(ctx context.Context, f func() (types.Ex
 	ret, err = f()
 	if err != nil {
 		// XA End & Rollback
+		inExplicitTx := tx == nil && !currentAutoCommit && c.xaActive
 		if rollbackErr := c.Rollback(ctx); rollbackErr != nil {
 			log.Errorf("failed to rollback xa branch of :%s, err:%w", c.txCtx.XID, rollbackErr)
 		}
+		// the branch of an explicit transaction is gone: its later statements must neither run outside a
+		// branch nor open branches of their own, and its Commit has nothing to commit
+		c.txAborted = inExplicitTx
 		return nil, err
 	}
 
@@ -320,6 +332,7 @@ func (c *XAConn) cleanXABranchContext() {
 }
 
 func (c *XAConn) Rollback(ctx context.Context) error {
+	c.txAborted = false
 	if c.autoCommit {
 		return nil
 	}
@@ -350,6 +363,10 @@ func (c *XAConn) rollbackErrorHandle() error {
 }
 
 func (c *XAConn) Commit(ctx context.Context) error {
+	if c.txAborted {
+		c.txAborted = false
+		return fmt.Errorf("the xa branch of this transaction was rolled back after a failed statement: nothing has been committed")
+	}
 	if c.autoCommit {
 		return nil
 	}
